@@ -34,6 +34,12 @@ theorem source_codes_roundtrip :
       ((Gen.C02.consts.find? (fun k => k.2 == c.code)).bind (fun k =>
           (Gen.C02.factory.find? (fun e => e.1 == k.1)).map (·.2))) = some c.typeName := by decide
 
+/-- the only calls left out of the skeletons are the availability guard `CheckCount` (reads
+    nothing; rejects only counts that the remaining bytes cannot satisfy, on which decoding fails
+    anyway — the model's decoders fail there too), and only inside `Read` bodies -/
+theorem guards_are_noops :
+    Gen.C02.guards.all (fun g => g.2.1 == "Read" && g.2.2.all (· == "CheckCount")) = true := by decide
+
 theorem source_codes_distinct : (Gen.C02.consts.map (·.2)).Nodup := by decide
 
 end C02Gen
